@@ -333,6 +333,46 @@ def run(ctx):
               "Matcher::rollback goes through with_inner (sticky error wrapper)",
               "Matcher::rollback bypasses with_inner", site=mrb.where())
 
+    # ------------------------------------------------------------ R7 token budget: charged per recorded token, refunded per removed token
+    # TokenParser::rollback gives max_tokens_total back one unit per token it removes from llm_tokens.  For the budget to be
+    # restored *exactly*, every token consume_token records in llm_tokens (directly, or through TokenParser::apply_token)
+    # must have been charged one unit first: on every path of consume_token, the growth of llm_tokens is preceded by the
+    # decrement of max_tokens_total.  (A path that charges without recording — the EOS eaten by a gen() — is not rolled
+    # back by token and is outside this rule.)
+    ct = ctx.body(TP + "::consume_token")
+    be = P.block_effects(ct)
+    charge = []
+    for bi, si, st in ct.statements():
+        if st["s"] == "assign" and F.place_fields(st["p"])[-1:] == [(TP, "max_tokens_total")]:
+            e = ct.expr_rvalue(st["r"])
+            if e[0] == "bin" and e[1] == "Sub":
+                charge.append(bi)
+    for bi, t in ct.calls():
+        d = t["f"].get("def", "")
+        if d.rsplit("::", 1)[-1] in ("saturating_sub", "checked_sub", "wrapping_sub") and t["args"] and L.is_field_read(TP, "max_tokens_total")(L.strip_wrappers(ct.expr(t["args"][0]))):
+            charge.append(bi)
+    grow = [bi for bi, (w, m, r) in be.items() if any(fld == (TP, "llm_tokens") and c.rsplit("::", 1)[-1] in ("push", "extend", "extend_from_slice", "append", "insert") for fld, c in m)]
+    grow += ct.call_blocks(TP + "::apply_token")
+    uncharged = [g for g in grow if g in ct.reachable(0, cut_blocks=charge)] if charge else grow
+    ctx.check(bool(charge) and bool(grow) and not uncharged, "C12-R7", "budget:charge-precedes-recording",
+              "every token recorded by consume_token (llm_tokens.push / apply_token) is preceded on all paths by the decrement of max_tokens_total",
+              "consume_token can record a token in llm_tokens without having charged max_tokens_total (e.g. the terminating EOS): rollback refunds one unit per "
+              "removed token, so rolling such a token back inflates the remaining budget and the engine outlives a fresh one",
+              site=ct.where(uncharged[0]) if uncharged else ct.where())
+    # the refund is the number of tokens removed
+    refund = []
+    for bi, si, st in trb.statements():
+        if st["s"] == "assign" and F.place_fields(st["p"])[-1:] == [(TP, "max_tokens_total")]:
+            refund.append((bi, trb.expr_rvalue(st["r"])))
+    okr = False
+    for bi, e in refund:
+        args = e[2] if e[0] == "call" and e[1].rsplit("::", 1)[-1] in ("saturating_add", "checked_add", "wrapping_add") else (e[2:4] if e[0] == "bin" and e[1] == "Add" else None)
+        if args and len(args) == 2:
+            roles = {F.fmt_expr(L.strip_wrappers(a)) for a in args}
+            okr = okr or any(a[0] == "place" and a[1] == [2] for a in (L.strip_wrappers(x) for x in args))
+    ctx.check(bool(refund) and okr, "C12-R7", "budget:refund-is-n_tokens", "rollback adds its n_tokens argument back to max_tokens_total",
+              "TokenParser::rollback no longer refunds max_tokens_total by the number of tokens it removes", site=trb.where(refund[0][0]) if refund else trb.where())
+
     # ------------------------------------------------------------ R3 invariant checks around truncation
     asserts = rb.call_blocks(PS + "::assert_definitive")
     trunc = [bi for bi, (w, m, r) in P.block_effects(rb).items()
